@@ -301,6 +301,10 @@ def run(ctx):
                             bad_tr.setdefault((sid, "blocking=%s but start() returned without completion (%s)" % (BK[tr["blocking"]], src)), (b, i))
                         if BK[tr["blocking"]] == "never" and in_start:
                             bad_tr.setdefault((sid, "blocking=never but completed inside start() (%s)" % src), (b, i))
+                        # is_always_scheduler_affine: started on the receiver's context (S) with any stop request issued there (X),
+                        # the completion must be delivered there too - not on a leaf's foreign thread (L) nor on another context (C,k>0)
+                        if tr.get("affine") == 1 and any((rr["ctx"][0] == "L") or (rr["ctx"][0] == "C" and rr["ctx"][1] != 0) for rr in obs["root"]):
+                            bad_tr.setdefault((sid, "is_always_scheduler_affine=true but completed on a foreign context %s (%s)" % (obs["root"][0]["ctx"], src)), (b, i))
                         if tr["sends_done"] == 0 and any(rr["ch"] == "d" for rr in obs["root"]):
                             bad_tr.setdefault((sid, "sends_done=false but completed with done (%s)" % src), (b, i))
             for (sid, msg), (b, i) in bad_tr.items():
@@ -357,6 +361,59 @@ def run(ctx):
                                    what="%s with value copy #%s throwing in %s: %s %s" % (d["event"], (b or {}).get("copyThrowAt"), sh["text"], d.get("asan", ""), d.get("frame", "")),
                                    detail=d.get("stderr_tail")))
             validate(flp, "fault", fb, skip=set(d["x"] for d in deaths))
+            # ---- second fault family: the k-th *move* of a tracked value throws (separate build: Val's move constructor is
+            # potentially throwing there, which also exercises the library's not-nothrow-movable code paths)
+            if prop == "C02":
+                exe_tm = vlib.build(ctx, "alg_driver_tm", [os.path.join(HERE, "driver.cpp")] + files,
+                                    lib=["inplace_stop_token.cpp", "async_stack.cpp", "exception.cpp"], incs=[HERE], opt="-O0",
+                                    std=bc["std"], defs=list(bc["defs"]) + ["ALG_THROWING_MOVE"], cxx=bc.get("cxx", "g++"), recover=True)
+                cand = [(x, b) for x, b in enumerate(behaviours) if not b["cfg"].get("throwAt")]
+                ctx.rng.shuffle(cand)
+                cand = cand[:(400 if ctx.quick else 4000)]
+                cbp = os.path.join(ctx.work, "tm_count.ndjson")
+                with open(cbp, "w") as f:
+                    for i, (x, b) in enumerate(cand):
+                        f.write(json.dumps(dict(b=i, cfg=b["cfg"], steps=[dict(k=s["k"], n=s["n"], ch=s["ch"]) for s in b["steps"]])) + "\n")
+                cout = os.path.join(ctx.work, "tm_count_out.ndjson")
+                clp = os.path.join(ctx.work, "tm_count_log.ndjson")
+                vlib.run_batches(ctx, exe_tm, ["--behaviours", cbp, "--out", cout], len(cand), clp, timeout=3000, recover=True)
+                moves = {}
+                for l in open(cout):
+                    try:
+                        r = json.loads(l); moves[r["x"]] = r.get("moves", 0)
+                    except Exception:
+                        pass
+                mb = []
+                for i, (x, b) in enumerate(cand):
+                    for k in range(1, min(moves.get(i, 0), 6) + 1):
+                        mb.append(dict(cfg=b["cfg"], steps=b["steps"], moveThrowAt=k))
+                mbp = os.path.join(ctx.work, "tm_fault.ndjson")
+                with open(mbp, "w") as f:
+                    for i, b in enumerate(mb):
+                        f.write(json.dumps(dict(b=i, cfg=b["cfg"], moveThrowAt=b["moveThrowAt"], steps=[dict(k=s["k"], n=s["n"], ch=s["ch"]) for s in b["steps"]])) + "\n")
+                mlp = os.path.join(ctx.work, "tm_fault_log.ndjson")
+                mout = os.path.join(ctx.work, "tm_fault_out.ndjson")
+                sums, mdeaths = vlib.run_batches(ctx, exe_tm, ["--behaviours", mbp, "--out", mout], len(mb), mlp, timeout=3000, recover=True)
+                rep.evaluations += len(mb)
+                rep.note("fault injection: %d executions with the k-th value move throwing (throwing-move build)" % len(mb))
+                skip = set()
+                for d in mdeaths:
+                    skip.add(d["x"])
+                    b = mb[d["x"]] if d["x"] < len(mb) else None
+                    sh = by_id[b["cfg"]["shape"]]["spec"] if b else {"text": "?", "kind": []}
+                    rec = dict(engine="alg", config=bc["name"] + "-throwing-move", event=d["event"], shape=sh["text"], kinds=sorted(set(sh["kind"])), asan=d.get("asan"),
+                               frame=d.get("frame"), where=d.get("where"), moveThrowAt=(b or {}).get("moveThrowAt"), cfg=(b or {}).get("cfg"),
+                               ext_stop=bool(b and any(s["k"] in ("X", "I") for s in b["steps"])),
+                               steps=[(s["k"], s["n"], s["ch"]) for s in b["steps"]] if b else None,
+                               what="%s with value move #%s throwing in %s: %s %s" % (d["event"], (b or {}).get("moveThrowAt"), sh["text"], d.get("asan", ""), d.get("frame", "")),
+                               detail=d.get("stderr_tail"))
+                    if d["event"] == "Terminate":
+                        rep.oos.append(dict(event="Terminate", shape=sh["text"], note="a throwing move inside a noexcept library function terminates: out of scope"))
+                    else:
+                        rep.violation(rec)
+                validate(mlp, "move-fault", mb, skip=skip)
+                for i, b in enumerate(mb):
+                    rep.distinct.add(hash(("mfault", i)))
             for i, b in enumerate(fb):
                 rep.distinct.add(hash(("fault", i)))
 
